@@ -36,6 +36,8 @@ func runC06(c *core.Ctx) {
 	ruleLZWWidthAdvance(c, "C06-R7")
 	ruleLZWConstants(c, "C06-R7")
 	ruleCCITTRunBoundary(c)
+	ruleRunLengthBounds(c, "C06-R9")
+	ruleCCITTRefLine(c, "C06-R10")
 }
 
 // ruleCCITTRunBoundary: make-up codes may add up to exactly the row width; the
@@ -700,4 +702,215 @@ func ruleTIFF16Carry(c *core.Ctx, rule string) {
 			o.Require(wide > 0, "%s: no %s on an unsigned value of 16 bits or more found", fn.Key, e.op)
 		})
 	}
+}
+
+// ruleRunLengthBounds: a RunLength repeat record is "length byte L in
+// 129..255, then one byte, repeated 257-L times", so a run holds 2..128
+// bytes; L = 128 is the end-of-data marker.  The encoder keeps the run
+// length in a field and emits byte(257 - field): the field must never
+// exceed 128.  Decided from all writes to the field in the package: constant
+// stores are <= 128 and every increment is dominated by a test that implies
+// field <= 127.  Literal records hold 1..128 bytes (length byte count-1 in
+// 0..127): every flushLiteral call passes a count that its guards bound by 128.
+func ruleRunLengthBounds(c *core.Ctx, rule string) {
+	const pk = "pdf/internal/filter/runlength"
+	c.Check(rule, pk+".rlWriter.repeatCount", "the repeat count emitted as 257-count never exceeds 128 (129 would be written as the end-of-data marker, larger counts as literal lengths)", func(o *core.Ob) {
+		pkg := c.Prog.Pkg(pk)
+		// the field used in 257 - field
+		var field *types.Var
+		for _, fn := range c.Prog.Funcs(pkg) {
+			info := fn.Info()
+			ast.Inspect(fn.Decl.Body, func(n ast.Node) bool {
+				be, ok := n.(*ast.BinaryExpr)
+				if !ok || be.Op != token.SUB {
+					return true
+				}
+				if k, ok := core.IntConst(info, be.X); ok && k == 257 {
+					if sel, ok := ast.Unparen(be.Y).(*ast.SelectorExpr); ok {
+						if v, ok := info.ObjectOf(sel.Sel).(*types.Var); ok && v.IsField() {
+							field = v
+							o.At(fn.Site(be, "length byte of a repeat record"))
+						}
+					}
+				}
+				return true
+			})
+		}
+		if field == nil {
+			core.Undecided("no expression 257 - <field> found in the encoder")
+		}
+		writes := 0
+		for _, fn := range c.Prog.Funcs(pkg) {
+			info := fn.Info()
+			g := fn.Graph()
+			for _, v := range g.Vs {
+				switch s := v.AST.(type) {
+				case *ast.AssignStmt:
+					for i, l := range s.Lhs {
+						sel, ok := ast.Unparen(l).(*ast.SelectorExpr)
+						if !ok || info.ObjectOf(sel.Sel) != field {
+							continue
+						}
+						writes++
+						o.Count(1)
+						if s.Tok != token.ASSIGN || len(s.Rhs) != len(s.Lhs) {
+							o.FailAt(fn.Site(s, ""), "%s: update of %s not understood", c.Prog.Pos(s.Pos()), field.Name())
+							continue
+						}
+						k, ok := core.IntConst(info, s.Rhs[i])
+						if !ok {
+							o.FailAt(fn.Site(s, ""), "%s: %s is set to a non-constant value", c.Prog.Pos(s.Pos()), field.Name())
+						} else if k > 128 || k < 0 {
+							o.FailAt(fn.Site(s, ""), "%s: %s is set to %d", c.Prog.Pos(s.Pos()), field.Name(), k)
+						}
+					}
+				case *ast.IncDecStmt:
+					sel, ok := ast.Unparen(s.X).(*ast.SelectorExpr)
+					if !ok || info.ObjectOf(sel.Sel) != field {
+						continue
+					}
+					writes++
+					o.Count(1)
+					if s.Tok != token.INC {
+						continue
+					}
+					o.At(fn.Site(s, "run grows"))
+					bound := core.Formula{Fn: fn, Atoms: []core.Atom{{Expr: &ast.BinaryExpr{X: s.X, Op: token.LEQ, Y: &ast.BasicLit{Kind: token.INT, Value: "127"}}}}}
+					holds, counter, decided := c.Prog.Implies(core.Formula{Fn: fn, Atoms: g.DominatingAtoms(v)}, bound)
+					if !decided {
+						core.Undecided("guard of the increment not decided: %s", counter)
+					}
+					if !holds {
+						o.FailAt(fn.Site(s, ""), "%s: the run can grow beyond 128 bytes: the guards (%s) allow %s before the increment", c.Prog.Pos(s.Pos()), c.Prog.FormulaString(core.Formula{Atoms: g.DominatingAtoms(v)}), counter)
+					}
+				}
+			}
+		}
+		o.Require(writes >= 3, "expected at least three writes to %s, found %d", field.Name(), writes)
+	})
+}
+
+// ruleCCITTRefLine: two-dimensional CCITT coding describes each row
+// relative to the complete previous row.  The decoder keeps that row in
+// refLine; it must be refreshed from a freshly decoded, complete row and at
+// no other time (Read hands a row out in pieces and shifts the remainder to
+// the front of the line buffer).  Decided per copy(x.refLine, x.line):
+// in its function every path to the copy passes a call that decodes a row,
+// and no statement between that call and the copy changes the line buffer.
+func ruleCCITTRefLine(c *core.Ctx, rule string) {
+	const pk = "pdf/internal/filter/ccittfax"
+	c.Check(rule, pk+".Reader.refLine", "the reference line of the CCITT decoder is refreshed exactly from complete, freshly decoded rows", func(o *core.Ob) {
+		pkg := c.Prog.Pkg(pk)
+		isField := func(info *types.Info, e ast.Expr, name string) bool {
+			sel, ok := ast.Unparen(e).(*ast.SelectorExpr)
+			if !ok || sel.Sel.Name != name {
+				return false
+			}
+			v, ok := info.ObjectOf(sel.Sel).(*types.Var)
+			return ok && v.IsField() && core.IsNamed(info.TypeOf(sel.X), pk, "Reader")
+		}
+		// statements that change the line buffer directly
+		mutatesLine := func(info *types.Info, n ast.Node) bool {
+			found := false
+			ast.Inspect(n, func(m ast.Node) bool {
+				switch s := m.(type) {
+				case *ast.AssignStmt:
+					for _, l := range s.Lhs {
+						if isField(info, l, "line") {
+							found = true
+						}
+						if ix, ok := ast.Unparen(l).(*ast.IndexExpr); ok && isField(info, ix.X, "line") {
+							found = true
+						}
+					}
+				case *ast.CallExpr:
+					if id, ok := s.Fun.(*ast.Ident); ok && id.Name == "copy" && len(s.Args) == 2 && isField(info, s.Args[0], "line") {
+						found = true
+					}
+				}
+				return true
+			})
+			return found
+		}
+		// functions that produce a row: they write the line buffer and are not Read itself
+		producers := map[*types.Func]bool{}
+		for _, fn := range c.Prog.Funcs(pkg) {
+			if fn.Obj.Name() != "Read" && mutatesLine(fn.Info(), fn.Decl.Body) {
+				producers[fn.Obj] = true
+			}
+		}
+		for changed := true; changed; {
+			changed = false
+			for _, fn := range c.Prog.Funcs(pkg) {
+				if producers[fn.Obj] || fn.Obj.Name() == "Read" {
+					continue
+				}
+				for _, cs := range core.CallsIn(fn.Info(), fn.Decl, true) {
+					if cs.Fn != nil && producers[cs.Fn] {
+						producers[fn.Obj] = true
+						changed = true
+					}
+				}
+			}
+		}
+		copies := 0
+		for _, fn := range c.Prog.Funcs(pkg) {
+			info := fn.Info()
+			g := fn.Graph()
+			for _, v := range g.Vs {
+				if v.AST == nil {
+					continue
+				}
+				var cp *ast.CallExpr
+				for _, cs := range core.CallsIn(info, v.AST, false) {
+					if id, ok := cs.Call.Fun.(*ast.Ident); ok && id.Name == "copy" && len(cs.Call.Args) == 2 && isField(info, cs.Call.Args[0], "refLine") {
+						cp = cs.Call
+					}
+				}
+				if cp == nil {
+					continue
+				}
+				copies++
+				o.Count(1)
+				o.At(fn.Site(cp, "reference line refreshed"))
+				if !isField(info, cp.Args[1], "line") {
+					o.FailAt(fn.Site(cp, ""), "%s: the reference line is filled from %s, not from the decoded row", c.Prog.Pos(cp.Pos()), c.Prog.Src(cp.Args[1]))
+					continue
+				}
+				var prod []*core.V
+				for _, pv := range g.Vs {
+					if pv.AST == nil || pv == v {
+						continue
+					}
+					for _, cs := range core.CallsIn(info, pv.AST, false) {
+						if cs.Fn != nil && producers[cs.Fn] {
+							prod = append(prod, pv)
+						}
+					}
+				}
+				if len(prod) == 0 || g.ReachFrom(g.Entry, true, core.AvoidVs(prod...))[v] {
+					o.FailAt(fn.Site(cp, ""), "%s: in %s the reference line is refreshed on a path on which no row was decoded: the line buffer may hold the shifted remainder of a partly delivered row", c.Prog.Pos(cp.Pos()), fn.Key)
+					continue
+				}
+				for _, pv := range prod {
+					between := g.ReachFrom(pv, false, core.AvoidVs(v))
+					for _, x := range g.Vs {
+						if x.AST != nil && between[x] && x != v && g.ReachFrom(x, false, nil)[v] && mutatesLine(info, x.AST) {
+							isProd := false
+							for _, p2 := range prod {
+								if p2 == x {
+									isProd = true
+								}
+							}
+							if !isProd {
+								o.FailAt(fn.Site(x.AST, ""), "%s: the line buffer is changed between decoding the row and refreshing the reference line", c.Prog.Pos(x.AST.Pos()))
+							}
+						}
+					}
+				}
+			}
+		}
+		o.Fact("%d row-producing functions, %d refresh sites", len(producers), copies)
+		o.Require(copies >= 1, "the decoder never refreshes its reference line")
+	})
 }
